@@ -20,3 +20,4 @@ done
 H=/tmp/verif_harness_$(printf %s "$D" | sha1sum | cut -c1-10)
 if [ -z "$KEEP" ]; then rm -rf "/tmp/selftest_$NAME"; rm -rf "/tmp/verif_harness_$(printf %s "/tmp/selftest_$NAME" | sha1sum | cut -c1-10)"; fi
 python3 /verif/tools/gen_consts.py >/dev/null
+/verif/translator/target/debug/translator --repo /repo --out /verif/lean/RenetVerif/Generated/Src.lean >/dev/null 2>&1
